@@ -32,8 +32,11 @@ def strat_muscl(tier):
     nmax = 40 if tier == "quick" else 200
     cfl = st.one_of(gen.f(0.01, 0.5), st.sampled_from([0.5, 0.25, 0.4999]))
     num = st.one_of(gen.num_muscl(), gen.num_muscl(), gen.num_first())
-    return st.builds(lambda md, n, L, s, nm, integ, c, ns: dict(model=md, mesh=dict(kind="uni", n=n, length=L, x0=0.0), state=s, num=nm, integ=integ, cfl=c, nsteps=ns, periodic=True),
-                     st.one_of(gen.model_convection(), gen.model_burgers()), st.integers(3, nmax), gen.logf(-1, 1), _data(), num, st.sampled_from(SSP), cfl, st.integers(1, 12))
+    # origin of the mesh in units of the cell size: 0, a fraction of a cell on either side, the domain centred on the origin, far away
+    x0c = st.one_of(st.just(0.0), st.sampled_from([-0.5, -1.0, -1.5, 0.5, -3.0]), gen.f(-2.5, 2.5), gen.f(-50, 50))
+    return st.builds(lambda md, n, L, s, nm, integ, c, ns, xc: dict(model=md, mesh=dict(kind="uni", n=n, length=L, x0=(-0.5 * L if xc is None else xc * L / n)), state=s, num=nm, integ=integ, cfl=c, nsteps=ns, periodic=True),
+                     st.one_of(gen.model_convection(), gen.model_burgers()), st.integers(3, nmax), gen.logf(-1, 1), _data(), num, st.sampled_from(SSP), cfl, st.integers(1, 12),
+                     st.one_of(x0c, st.none()))
 
 
 def tv(u, periodic):
@@ -103,7 +106,7 @@ def check(case):
         require(float(np.max(fin)) <= hi0 + tol * case["nsteps"] and float(np.min(fin)) >= lo0 - tol * case["nsteps"], "maximum-principle-solve",
                 "solve(maxit=%d) leaves the initial range [%r,%r]: [%r,%r]" % (case["nsteps"], lo0, hi0, float(np.min(fin)), float(np.max(fin))))
     labels = ["model:" + md["name"], "num:" + case["num"].get("limiter", case["num"]["name"]), "integ:" + case["integ"], "per" if per else "inflow",
-              "mesh:" + case["mesh"]["kind"], "sign-change" if (np.min(u) < 0 < np.max(u)) else "one-sign"]
+              "mesh:" + case["mesh"]["kind"], "x0=0" if case["mesh"].get("x0", 0.0) == 0 else "x0!=0", "sign-change" if (np.min(u) < 0 < np.max(u)) else "one-sign"]
     if md["name"] == "burgers" and np.any(u[:-1] == -u[1:]) and np.any((u[:-1] > 0) & (u[:-1] == -u[1:])):
         labels.append("burgers-stationary-shock-pair")
     return dict(nontrivial=bool(np.max(u) > np.min(u)), labels=labels)
